@@ -197,6 +197,17 @@ Definition set_val (L : layout) (v : list Z) : layout :=
   {| l_off := l_off L; l_skip := l_skip L; l_cap := l_cap L; l_rd := l_rd L; l_wr := l_wr L;
      l_val := v; l_dend := l_dend L; l_hw := l_hw L |}.
 
+(* The test at the end of _read_ndef_data (repairs c08-15 / c08-16): the NDEF TLV is only reported when
+     start = offset + (4 if tag_memory[offset+1] == 0xFF else 2) <= end of the data area,
+     len(ndef) <= len(set(range(start, end)) - skip_bytes)  and  len(ndef) <= capacity *)
+Definition ndef_hdr (em : list Z) (off : Z) : Z :=
+  match rd em (off + 1) with Ok 255 => 4 | _ => 2 end.
+Definition ndef_fits (em : list Z) (L : layout) : bool :=
+  let start := l_off L + ndef_hdr em (l_off L) in
+  (start <=? l_dend L)
+  && (len (l_val L) <=? count_free (l_skip L) start (Z.to_nat (l_dend L - start)))
+  && (len (l_val L) <=? l_cap L).
+
 (* NDEF message area: the bytes of the data area from the NDEF TLV on that are not reserved *)
 Definition ndef_area (L : layout) (a : Z) : bool :=
   (l_off L <=? a) && (a <? l_dend L) && negb (in_skip (l_skip L) a).
